@@ -38,28 +38,11 @@ pub(crate) mod verif_c09 {
         image::{Image, ImageDrawableExt, SubImage},
         iterator::raw::RawDataIterator,
         pixelcolor::{raw::*, BinaryColor, Gray2, Gray4, Gray8, Rgb565, Rgb888},
-        verif_probe::{any_point, any_rect, everything, sp, ProbeIter, ProbeNative, ProbeState},
+        verif_probe::{any_point, any_rect, everything, sp, ColorU32, ProbeIter, ProbeNative, ProbeState},
         Drawable,
     };
 
     pub const L: usize = 16;
-
-    /// 32 bit test colour (there is no built-in colour with RawU32)
-    #[derive(Copy, Clone, Eq, PartialEq, Debug)]
-    pub struct ColorU32(pub RawU32);
-    impl PixelColor for ColorU32 {
-        type Raw = RawU32;
-    }
-    impl From<RawU32> for ColorU32 {
-        fn from(d: RawU32) -> Self {
-            Self(d)
-        }
-    }
-    impl From<ColorU32> for RawU32 {
-        fn from(c: ColorU32) -> Self {
-            c.0
-        }
-    }
 
     /// required buffer length: rows padded to whole bytes
     pub fn bpr(w: u32, bpp: usize) -> usize {
